@@ -284,9 +284,15 @@ func (c *Client) Lookup(path, vers string) (lines []string, err error) {
 
 	// Extract the lines for the specific version we want
 	// (with or without /go.mod).
+	// Look only at the record's text: the signed tree head that follows it
+	// is not part of the record.
+	_, text, _, err := tlog.ParseRecord(result.data)
+	if err != nil {
+		return nil, err
+	}
 	prefix := path + " " + vers + " "
 	var hashes []string
-	for _, line := range strings.Split(string(result.data), "\n") {
+	for _, line := range strings.Split(string(text), "\n") {
 		if strings.HasPrefix(line, prefix) {
 			hashes = append(hashes, line)
 		}
